@@ -550,6 +550,14 @@ def oracle(case, obs):
         r = res.get(str(k))
         if r is None or r == "own":
             continue
+        if is_filler(case, k):
+            # the fillers of the wrap scenarios run with a 400 ms deadline on purpose; one that expires while its reply is on the
+            # way (select may pick ctx.Done even when the reply is already in the channel) says nothing about matching
+            obs.setdefault("_inconclusive", []).append(k)
+            continue
+        if datagram_may_be_lost(case, obs, k, q):
+            obs.setdefault("_inconclusive", []).append(k)      # UDP may drop the reply: no verdict without evidence of arrival
+            continue
         if k in cancelled and ret_seq.get(k, 10**9) > q and r.startswith("canceled"):
             # answered, still not returned when the script gave up on it and cancelled it
             d = reuse_distance(case, obs, k)
@@ -585,6 +593,31 @@ def oracle(case, obs):
             if total != len(waiting) and case["fam"] not in ("wrap", "preset-distance"):
                 return ("c09:%s:pending-entries-left" % t, "%s: %d pending entries with %d callers still waiting" % (t, total, len(waiting)))
     return None
+
+
+def is_filler(case, k):
+    for st in case["steps"]:
+        if st and st[0] == "quick" and st[2] <= k < st[2] + st[1]:
+            return True
+    return False
+
+
+def datagram_may_be_lost(case, obs, k, q):
+    """No verdict about the client when the reply cannot be shown to have reached it in time:
+    - UDP delivers or drops: a reply counts as arrived only if the client's Receive is seen handling it (table event
+      loadAndDelete for that index after the send; needs the hook);
+    - on any transport, a reply that Receive handled only AFTER the caller had given up and deleted its entry (loadAndDelete
+      finds nothing, after the caller's delete event) simply came too late for the caller's deadline."""
+    log = obs["log"]
+    idx = next((e["i"] for e in log if e["e"] in ("peer-send",) and e["k"] == k and e["q"] >= q), None)
+    lad = next((e for e in log if e["e"] == "t:loadAndDelete" and e["i"] == idx and e["q"] > q), None)
+    if lad is None:
+        return case.get("transport") == "udp"
+    if not lad.get("x"):
+        gave_up = next((e["q"] for e in log if e["e"] == "t:delete" and e["k"] == k), None)
+        if gave_up is not None and gave_up < lad["q"]:
+            return True
+    return False
 
 
 def case_callers(case):
@@ -723,6 +756,8 @@ def evaluate(ctx, cases, byid, hook):
         toks, summ = parse_model(out) if not out.startswith("MODEL-ERROR") else ([], {})
         d = compare(c, o, ops, expect, out) if not out.startswith("MODEL-ERROR") else out
         w = oracle(c, o)
+        if o.get("_inconclusive"):
+            ctx.bump("inconclusive_replies_late_or_possibly_dropped", None, len(o["_inconclusive"]))
         if d:
             disagreements.append((c, o, d, out))
         else:
